@@ -233,6 +233,7 @@ class Interp:
         self.steps = 0
         self.max_steps = max_steps
         self.depth = 1
+        self.max_depth = 1       # deepest nesting reached (one level per block entered or function called)
         self.ended_by_return = False
 
     def lookup(self, name):
@@ -259,7 +260,9 @@ class Interp:
         except EvalError:
             raise ProgError('div0')
 
-    def push(self): self.frames.append({}); self.fframes.append({}); self.depth += 1
+    def push(self):
+        self.frames.append({}); self.fframes.append({}); self.depth += 1
+        self.max_depth = max(self.max_depth, self.depth)
     def pop(self): self.frames.pop(); self.fframes.pop(); self.depth -= 1
 
     def block(self, body):
